@@ -200,9 +200,20 @@ func (i *Iterator) Next(ctx context.Context, span telem.TimeSpan) (ok bool) {
 		return
 	}
 
-	for i.internal.Next() &&
-		i.accumulate(ctx) &&
-		!i.satisfied() {
+	for i.internal.Next() {
+		if !i.accumulate(ctx) {
+			// The domain iterator has moved to a domain that lies entirely past the
+			// view. Step back so the next call starts from the domain that covers the
+			// end of this view; otherwise the samples of that domain are skipped when
+			// its portion inside this view held no samples.
+			if i.err == nil {
+				i.internal.Prev()
+			}
+			break
+		}
+		if i.satisfied() {
+			break
+		}
 	}
 	return
 }
